@@ -202,8 +202,8 @@ func TestVerifC08(t *testing.T) {
 			}
 		}
 	} else {
-		// every choice vector with <= 4 deviations (structure and content alike) ...
-		n, complete := h.Explore(4, r.Expired, func(c *h.Ctx) {
+		// every choice vector with <= 10 deviations (structure and content alike) ...
+		n, complete := h.Explore(10, r.Expired, func(c *h.Ctx) {
 			rc, foreignAt, sur := raceScenario(c)
 			run(c, rc, foreignAt, sur, c.Key())
 		})
